@@ -1,0 +1,92 @@
+//! Read-only inspection hooks for an external verification harness.
+//!
+//! This module only exists when the crate is compiled with
+//! `--cfg futures_intrusive_verif`. Nothing in here changes the behaviour of
+//! any primitive: the types below are plain data that the `verif_snapshot()`
+//! methods of the primitives fill in, and [`sched_point`] is a no-op unless a
+//! harness installed a callback.
+
+use alloc::vec::Vec;
+use core::sync::atomic::{AtomicUsize, Ordering};
+
+/// One node of a wait queue, as seen by a snapshot.
+#[derive(Debug, Clone, PartialEq, Eq)]
+pub struct NodeSnap {
+    /// Address of the intrusive node (lies inside the future that owns it)
+    pub addr: usize,
+    /// The poll state of the node, encoded in declaration order of the
+    /// respective `PollState` enum
+    pub state: u8,
+    /// Whether a `Waker` is stored in the node
+    pub has_waker: bool,
+    /// Primitive-specific extra (required permits, expiry, state id, whether
+    /// a send value is parked)
+    pub aux: u64,
+}
+
+/// A structural problem found while walking a queue.
+#[derive(Debug, Clone, PartialEq, Eq)]
+pub struct WalkError {
+    /// What is wrong
+    pub what: &'static str,
+    /// The node address at which the walk stopped
+    pub addr: usize,
+}
+
+/// One wait queue, ordered from the oldest to the newest waiter (heaps:
+/// pre-order).
+#[derive(Debug, Clone, PartialEq, Eq)]
+pub struct QueueSnap {
+    /// Name of the queue inside the primitive
+    pub name: &'static str,
+    /// The nodes which were reached
+    pub nodes: Vec<NodeSnap>,
+    /// Set if the walk had to stop
+    pub error: Option<WalkError>,
+}
+
+/// Snapshot of the internal state of a primitive
+#[derive(Debug, Clone, PartialEq, Eq, Default)]
+pub struct Snapshot {
+    /// Named scalar state
+    pub scalars: Vec<(&'static str, u64)>,
+    /// All wait queues
+    pub queues: Vec<QueueSnap>,
+}
+
+impl Snapshot {
+    /// Looks up a scalar by name
+    pub fn scalar(&self, name: &str) -> Option<u64> {
+        self.scalars.iter().find(|(n, _)| *n == name).map(|(_, v)| *v)
+    }
+}
+
+/// Callback asked for every node address *before* the node is dereferenced.
+pub type IsLive<'a> = &'a mut dyn FnMut(usize) -> bool;
+
+/// Upper bound for the number of nodes a walk will visit
+pub const MAX_WALK: usize = 4096;
+
+static SCHED_HOOK: AtomicUsize = AtomicUsize::new(0);
+
+/// Installs (or removes) the callback behind [`sched_point`].
+pub fn set_sched_hook(hook: Option<fn(&'static str)>) {
+    let raw = match hook {
+        Some(f) => f as usize,
+        None => 0,
+    };
+    SCHED_HOOK.store(raw, Ordering::SeqCst);
+}
+
+/// A point at which a simulated scheduler may switch threads.
+/// Does nothing unless a harness installed a callback.
+#[inline]
+pub fn sched_point(site: &'static str) {
+    let raw = SCHED_HOOK.load(Ordering::SeqCst);
+    if raw != 0 {
+        // Safety: Only `set_sched_hook` stores into SCHED_HOOK, and it only
+        // stores valid function pointers of this type.
+        let f: fn(&'static str) = unsafe { core::mem::transmute(raw) };
+        f(site);
+    }
+}
